@@ -178,6 +178,8 @@ func Run(c *vk.Ctx) {
 		urlRoundTrip(c)
 	}
 	histories(c, depthB, func(s string) string { return cfgRaw[s] })
+	var widx int64
+	webHistories(c, func(s string) string { return cfgRaw[s] }, &widx)
 	faults(c, depthC)
 	schedules(c, preempt)
 }
